@@ -383,3 +383,26 @@ CHECKS["C15"] = dict(
                  "results NumPy returns empty are accepted as Nothing or as the exact zero-extent shape (nmtools has no empty arrays)", "the pipeline-propagation clause is covered by the E2 explorer (c_pipeline) only for valid stages; propagation of Nothing is exercised by the maybe-lifting inside the harness's nested calls"],
     min_outcomes=2000,
 )
+
+CHECKS["C17"] = dict(
+    level="exploration", engine="E1", technique=E1_TECH,
+    level_note="trusted: the naive nested-loop models of engine/nmc_ref_c17.hpp - checked against all 111 upstream PyTorch expectation literals (harness/c17_upstream_literals.cpp: ok=111 diff=0) and against "
+               "independent NumPy formulas on 6493 cases (harness/c17_refdump.cpp + harness/c17_audit.py) - and g++ 12. PyTorch itself is not installed.",
+    level_text="conv1d / conv2d over the property's grid (batch 1..2, channels 1..4 with every common divisor as groups, spatial extents 1..5 (thorough 1..7), kernels 1..3 incl. 1xk / kx1, stride 1..3, padding 0..2, "
+               "dilation 1..2, bias on/off; thorough adds every per-axis stride/padding/dilation combination), max/avg pooling (inputs up to 7x7, kernel 1..3 x 1..3, stride 1..3 x 1..3, ceil_mode on/off so windows overhang), "
+               "softmax/softmin over every axis, batch/layer/instance/group normalisation over dim 2..4 inputs with every valid group count, linear, bilinear, pairwise_distance, cosine_similarity: output shape and every "
+               "element equal the direct definition (exactly for integer-valued conv/pool/linear/bilinear, rtol 1e-9 double / 1e-5 float where exp, sqrt or division occur); lazy view and evaluated array agree.",
+    units=[U("conv1d", "harness/c17_nn.cpp", flags=["-DC17_CONV1D"], weight=3), U("conv2d", "harness/c17_nn.cpp", flags=["-DC17_CONV2D"], weight=6), U("pool", "harness/c17_nn.cpp", flags=["-DC17_POOL"], weight=3),
+           U("softmax", "harness/c17_nn.cpp", flags=["-DC17_SOFTMAX"], weight=1), U("norm", "harness/c17_nn.cpp", flags=["-DC17_NORM"], weight=1), U("gnorm", "harness/c17_nn.cpp", flags=["-DC17_GNORM"], weight=1),
+           U("misc", "harness/c17_nn.cpp", flags=["-DC17_MISC"], weight=1),
+           U("gnorm_san", "harness/c17_nn.cpp", flags=["-DC17_GNORM"], san=True, family="gnorm", shadow=True, tiers=["thorough"], run_tier="quick", asan_options="malloc_context_size=0:symbolize=0"),
+           U("misc_san", "harness/c17_nn.cpp", flags=["-DC17_MISC"], san=True, family="misc", shadow=True, tiers=["thorough"], run_tier="quick", asan_options="malloc_context_size=0:symbolize=0"),
+           U("pool_san", "harness/c17_nn.cpp", flags=["-DC17_POOL"], san=True, family="pool", shadow=True, weight=3, tiers=["thorough"], run_tier="quick", asan_options="malloc_context_size=0:symbolize=0")],
+    rule="case = (routine, shapes, hyper-parameters); non-trivial: conv: result has >= 2 elements or every element sums >= 2 products; pool: >= 2 elements or a window covers >= 2 in-bounds elements; softmax: axis extent >= 2; "
+         "norms: each normalisation set has >= 2 elements; linear/bilinear: >= 2 terms or outputs; distances: reduced extent >= 2; distinct = distinct key",
+    bounds=dict(quick="conv1d L 1..5; conv2d spatial sweep on two channel triples (H,W 1..5) + channel sweep (H,W 1..2), equal per-axis parameters; pooling H,W 1..7; norms / softmax / misc extents 1..3",
+                thorough="conv1d L 1..7, batch 2 everywhere; conv2d all 22 channel triples on H,W 1..5, per-axis parameter cross for two triples; norms / softmax / misc extents 1..4; group_norm C 1..6"),
+    assumptions=["pooling ceil_mode shape follows the PyTorch documentation (a window must start inside the input or its padding)", "the full conv2d cross of the quantifier (~10^8 cases) is replaced by the stated sub-grids",
+                 "nmtools pooling has no padding / dilation arguments"],
+    min_outcomes=2000,
+)
